@@ -186,8 +186,9 @@ def accessors(ctx, facts, cfg):
         for bb in range(fn.body.n):
             for st in fn.body.blocks[bb]['stmts']:
                 if st['k'] == 'assign' and st['rv']['k'] == 'agg' and st['rv'].get('agg') == 'adt':
-                    d = dict(zip(st['rv']['fields'], [fn.body.canon_op(o) for o in st['rv']['ops']]))
-                    if d.get('ended') == ('const', 0) and d.get('next_index') == ('const', 0) and d.get('work') == ('param', 'work'):
+                    vals = [fn.body.canon_op(o) for o in st['rv']['ops']]
+                    pn = fn.param_names()
+                    if sorted(map(repr, vals)) == sorted(map(repr, [('const', 0), ('const', 0), ('param', pn[0] if pn else 'work')])) and len(vals) == 3:
                         okc = True
         if okc:
             ctx.ok('C12.a-forwarding', '%s@%s' % (p, cfg), {'initial': 'ended=false, next_index=0'})
@@ -196,152 +197,299 @@ def accessors(ctx, facts, cfg):
 
 
 def iterators(ctx, facts, cfg):
+    """Iterator protocol, decided on MIR (so that while/for, if-let/is_some, early-return forms are all the same):
+    fields of the iterator struct are identified by type (bool = ended, usize = next index, reference = work)."""
     RL = roles_mod.roles(facts)
-    specs = [("<encoder_result::Recovery<'a> as std::iter::Iterator>::next", RL.fn.get('enc.accessor'), 'recovery'),
-             ("<decoder_result::RestoredOriginal<'a> as std::iter::Iterator>::next", RL.fn.get('dec.accessor'), 'restored')]
-    for p, accessor, kind in specs:
+    specs = [("<encoder_result::Recovery<'a> as std::iter::Iterator>::next", 'encoder_result::Recovery', RL.fn.get('enc.accessor'), 'recovery'),
+             ("<decoder_result::RestoredOriginal<'a> as std::iter::Iterator>::next", 'decoder_result::RestoredOriginal', RL.fn.get('dec.accessor'), 'restored')]
+    for p, adt_p, accessor, kind in specs:
         fn = ctx.anchor(facts, p, 'C12.b-iterators')
         if fn is None:
             continue
         if accessor is None:
             ctx.violation('C12.b-iterators', 'role-missing:accessor', 'unrecognised idiom: %s' % (RL.problems[:1] or ['accessor of the work object not identified'])[0], fn=p, cfg=cfg)
             continue
-        problems = []
-        assigns = []     # (target canon, value node, conds, env, op)
-        rets = []        # (value canon, conds, env, node)
-        calls = []
-
-        def visit(e, conds, env):
-            k = e.get('k')
-            if k == 'assign':
-                assigns.append((hcanon(e['l'], env), e['r'], conds, dict(env), '='))
-            elif k == 'assignop':
-                assigns.append((hcanon(e['l'], env), e['r'], conds, dict(env), e['op']))
-            elif k in ('mcall', 'call'):
-                calls.append((e, conds, dict(env)))
-            if k == 'ret' and 'x' in e:
-                rets.append((e['x'], conds, dict(env)))
-        W = core.PathWalker(visit)
-        W.walk_fn(fn)
-        # collect tail values: expression-valued exits
-        tails = []
-        collect_tails(fn.hir['value'], (), {}, tails)
-        for (x, conds, env) in rets:
-            tails.append((x, conds, env))
-        ended = sf('ended')
-        nidx = sf('next_index')
-        # (i) ended only assigned true
-        for (tgt, val, conds, env, op) in assigns:
-            if tgt == ended:
-                if not (op == '=' and hcanon(val, env) == ('const', 1)):
-                    problems.append('`ended` is assigned %s' % hshow(hcanon(val, env)))
-        # (ii) ended => None, no effects
-        for (tgt, val, conds, env, op) in assigns:
-            if any(cd[0] == 'if' and hcanon(cd[1], env) == ended and cd[2] for cd in conds):
-                problems.append('state is modified on the ended path')
-        seen_ended_none = False
-        for (x, conds, env) in tails:
-            under_ended = any(cd[0] == 'if' and hcanon(cd[1], env) == ended and cd[2] for cd in conds)
-            v = hcanon(x, env)
-            is_none = (v[0] == 'def' and str(v[1]).endswith('::None'))
-            if under_ended:
-                if is_none:
-                    seen_ended_none = True
-                else:
-                    problems.append('the ended path can return %s' % hshow(v))
-        if not seen_ended_none:
-            problems.append('no `if self.ended { None }` path found')
-        # None returned on a not-ended path must set ended = true first
-        for (x, conds, env) in tails:
-            v = hcanon(x, env)
-            is_none = (v[0] == 'def' and str(v[1]).endswith('::None'))
-            under_ended = any(cd[0] == 'if' and hcanon(cd[1], env) == ended and cd[2] for cd in conds)
-            if is_none and not under_ended:
-                # an assignment ended = true with compatible conditions must exist
-                if not any(tgt == ended for (tgt, val, c2, e2, op) in assigns if cond_prefix(c2, conds) or cond_prefix(conds, c2)):
-                    problems.append('None is returned on a path that does not set ended = true (iterator could yield again later)')
-        # (iii) next_index only grows
-        for (tgt, val, conds, env, op) in assigns:
-            if tgt == nidx:
-                v = hcanon(val, env)
-                if op in ('+', '+=') and v == ('const', 1):
-                    continue
-                if op == '=' and v[0] == 'bin' and v[1] == 'Add' and ('const', 1) in (v[2], v[3]):
-                    continue
-                problems.append('next_index is assigned %s %s' % (op, hshow(v)))
-        # (iv) items come from the accessor
-        acc_calls = [(e, conds, env) for (e, conds, env) in calls if (e.get('path') == accessor)]
-        if not acc_calls:
-            problems.append('next() does not obtain its items from %s' % core.short(accessor))
-        for (e, conds, env) in acc_calls:
-            recv = hcanon(e['recv'], env)
-            if recv != sf('work'):
-                problems.append('accessor is called on %s, not self.work' % hshow(recv))
-            arg = hcanon(e['args'][0], {})
-            if kind == 'recovery' and arg != nidx:
-                problems.append('Recovery::next asks for index %s, expected self.next_index' % hshow(arg))
-            if kind == 'restored' and arg != ('local', 'index'):
-                problems.append('RestoredOriginal::next asks for %s, expected the scan variable' % hshow(arg))
-        somes = [(x, conds, env) for (x, conds, env) in tails if hcanon(x, env)[0] == 'call' and str(hcanon(x, env)[1]).endswith('::Some')]
-        if not somes:
-            problems.append('no Some(..) exit')
-        for (x, conds, env) in somes:
-            # under a successful `let Some(v) = accessor(..)`
-            lets = [cd for cd in conds if cd[0] == 'let' and cd[3] is True and isinstance(cd[2], dict)
-                    and cd[2].get('k') == 'mcall' and cd[2].get('path') == accessor]
-            if not lets:
-                problems.append('a Some(..) exit is not governed by `if let Some(..) = work.%s(..)`' % accessor.split('::')[-1])
-                continue
-            bound = pat_names(lets[0][1])
-            v = hcanon(x, {})
-            payload = v[2][0]
-            if kind == 'recovery':
-                if not (payload[0] == 'local' and payload[1] in bound):
-                    problems.append('Recovery::next yields %s, not the accessor result' % hshow(payload))
-            else:
-                if not (payload[0] == 'tuple' and payload[1][0] == ('local', 'index') and payload[1][1][0] == 'local' and payload[1][1][1] in bound):
-                    problems.append('RestoredOriginal::next yields %s, not (index, accessor result)' % hshow(payload))
-            # next_index advanced on this path
-            adv = [a for a in assigns if a[0] == nidx and cond_prefix(a[2], conds)]
-            if not adv:
-                problems.append('next_index is not advanced on the Some path')
-        if kind == 'restored':
-            # scan: index starts at next_index, `while index < work.original_count()`, index += 1
-            inits = []
-            loops = []
-
-            def v2(e, conds, env):
-                if e.get('k') == 'loop' and 'While' in e.get('source', ''):
-                    loops.append(e)
-            core.PathWalker(v2).walk_fn(fn)
-            for st in core.hir_find(fn.hir['value'], lambda n: n.get('k') == 'let' and n.get('pat', {}).get('name') == 'index'):
-                inits.append(hcanon(st[0].get('init'), {}))
-            if inits != [nidx]:
-                problems.append('scan variable does not start at self.next_index (%s)' % [hshow(i) for i in inits])
-            if len(loops) != 1:
-                problems.append('expected one `while` scan loop, found %d' % len(loops))
-            else:
-                # while cond: first `if` inside loop body
-                conds_in = core.hir_find(loops[0], lambda n: n.get('k') == 'if')
-                wc = hcanon(conds_in[0][0]['cond'], {}) if conds_in else None
-                getter = facts.fns.get(wc[3][1]) if (wc is not None and wc[0] == 'bin' and isinstance(wc[3], tuple) and wc[3][0] == 'call' and isinstance(wc[3][1], str)) else None
-                getter_ok = False
-                if getter is not None and getter.impl_self_adt == roles_mod.DEC_WORK:
-                    getter_ok = any(st['k'] == 'assign' and st['lhs']['l'] == 0 and
-                                    RL.norm(getter.body.canon_rv(st['rv']), side='dec') == ('field', ('deref', ('param', 'self')), 'original_count')
-                                    for bb in getter.body.blocks for st in bb['stmts'])
-                okw = wc is not None and wc[0] == 'bin' and wc[1] == 'Lt' and wc[2] == ('local', 'index') and \
-                    wc[3][0] == 'call' and getter_ok and wc[3][2][0] == sf('work')
-                if not okw:
-                    problems.append('scan loop condition is %s, expected index < self.work.original_count()' % (hshow(wc) if wc else None))
-                incs = [a for a in assigns if a[0] == ('local', 'index')]
-                if not incs or not all(a[4] in ('+', '+=') and hcanon(a[1], {}) == ('const', 1) for a in incs):
-                    problems.append('scan variable is not advanced by exactly 1')
+        adt = facts.adts.get(adt_p)
+        if adt is None:
+            ctx.violation('C12.b-iterators', 'anchor-missing', 'anchor missing: %s' % adt_p, fn=adt_p, cfg=cfg)
+            continue
+        fl = [(f['name'], f['ty']) for v in adt['variants'] for f in v['fields']]
+        F = {}
+        for n, t in fl:
+            if t == 'bool':
+                F['ended'] = n
+            elif t == 'usize':
+                F['next'] = n
+            elif t.startswith('&'):
+                F['work'] = n
+        if len(fl) != 3 or set(F) != {'ended', 'next', 'work'}:
+            ctx.violation('C12.b-iterators', 'iterator-state', '%s holds %s; expected exactly an ended flag, a next index and the borrowed work' % (adt_p, fl), site=adt['span'], fn=adt_p, cfg=cfg)
+            continue
+        problems = iterator_protocol(facts, fn, F, accessor, kind, RL)
         if problems:
             for pr in sorted(set(problems)):
                 ctx.violation('C12.b-iterators', re.sub(r'[^A-Za-z]+', '-', pr)[:60], '%s: %s' % (p, pr), site=fn.span, fn=p, cfg=cfg)
         else:
-            ctx.ok('C12.b-iterators', '%s@%s' % (p, cfg), {'protocol': 'ended-only-true, ended=>None, ascending, items = %s' % core.short(accessor)})
+            ctx.ok('C12.b-iterators', '%s@%s' % (p, cfg), {'protocol': 'ended only set true; ended => None without effects; index only grows; items = %s(index); None only after ended := true' % core.short(accessor)})
+
+
+def iterator_protocol(facts, fn, F, accessor, kind, RL):
+    body = fn.body
+    SELF = ('deref', ('param', body.local_name(1) or 'self'))
+    fe, fn_, fw = ('field', SELF, F['ended']), ('field', SELF, F['next']), ('field', SELF, F['work'])
+    problems = []
+
+    def self_write(st):
+        l = st['lhs']
+        if st['k'] == 'assign' and l['l'] == 1 and len(l['p']) >= 2 and l['p'][0] == '*' and isinstance(l['p'][1], dict):
+            return l['p'][1].get('f')
+        return None
+    live = body.reachable_from(0)
+    writes = []          # (bb, idx, field, canon rvalue)
+    for b in sorted(live):
+        for i, st in enumerate(body.blocks[b]['stmts']):
+            f = self_write(st)
+            if f:
+                writes.append((b, i, f, core.strip_var_ids(body.canon_rv(st['rv'], 0, True))))
+    # (i) ended only set to true
+    for (b, i, f, v) in writes:
+        if f == F['ended'] and v != ('const', 1):
+            problems.append('the ended flag is assigned %s (it may only ever become true)' % core.show(v))
+        if f == F['work']:
+            problems.append('the borrowed work is reassigned')
+    # (ii) ended => None, no effects
+    ended_true_blocks = set()
+    found_test = False
+    for sb in sorted(live):
+        t = body.term(sb)
+        if t['k'] != 'switch':
+            continue
+        c = body.canon_op(t['discr'])
+        neg = False
+        while c[0] == 'un' and c[1] == 'Not':
+            neg, c = (not neg), c[2]
+        if core.strip_var_ids(c) == fe:
+            found_test = True
+            zero = [tgt for v, tgt in t['targets'] if v == 0]
+            te = t['otherwise'] if not neg else (zero[0] if zero else None)
+            if te is not None:
+                removed = {(sb, x) for x in body.succs(sb) if x != te}
+                ended_true_blocks |= body.reachable_from(te) if False else reach_only(body, sb, te)
+    if not found_test:
+        problems.append('next() does not test the ended flag first')
+    for (b, i, f, v) in writes:
+        if b in ended_true_blocks and b not in not_only_ended(body, ended_true_blocks):
+            problems.append('state is modified on the ended path')
+    for b in ended_true_blocks:
+        t = body.term(b)
+        if t['k'] == 'call' and t['callee'].get('local'):
+            problems.append('the ended path calls %s' % core.short(t['callee'].get('path') or '?'))
+        for st in body.blocks[b]['stmts']:
+            if st['k'] == 'assign' and st['lhs']['l'] == 0 and not st['lhs']['p']:
+                rv = st['rv']
+                if not (rv['k'] == 'agg' and rv.get('variant') == 'None'):
+                    problems.append('the ended path can return something other than None')
+    # (iii) next index only grows by one past a value that is >= the old one
+    acc_calls = [(b, t) for b, t in body.calls() if t['callee'].get('path') == accessor and b in live]
+    if not acc_calls:
+        problems.append('next() does not obtain its items from %s' % core.short(accessor))
+        return problems
+    idx_vals = set()
+    for b, t in acc_calls:
+        recv = core.strip_var_ids(body.canon_op(t['args'][0], 0, True))
+        if recv not in (fw, ('deref', fw)):
+            problems.append('the accessor is called on %s, not on the borrowed work' % core.show(recv))
+        idx = core.strip_var_ids(body.canon_op(t['args'][1], 0, True))
+        idx_vals.add(idx)
+        if kind == 'recovery':
+            if idx != fn_:
+                problems.append('Recovery::next asks for index %s, expected its own next index' % core.show(idx))
+        else:
+            okv, why = scan_value(body, idx, fn_, fw, RL)
+            if not okv:
+                problems.append('RestoredOriginal::next asks for %s: %s' % (core.show(idx), why))
+    for (b, i, f, v) in writes:
+        if f == F['next']:
+            ok = v[0] == 'bin' and v[1] == 'Add' and ('const', 1) in (v[2], v[3]) and \
+                ((v[2] if v[3] == ('const', 1) else v[3]) in idx_vals | {fn_})
+            if not ok:
+                problems.append('the next index is assigned %s (allowed: index just asked for + 1)' % core.show(v))
+    # (iv) Some exits
+    some_seen = False
+    for b in sorted(live):
+        for i, st in enumerate(body.blocks[b]['stmts']):
+            if not (st['k'] == 'assign' and st['lhs']['l'] == 0 and not st['lhs']['p']):
+                continue
+            rv = st['rv']
+            c = body.canon_rv(rv, 0, True)
+            if rv['k'] == 'agg' and rv.get('variant') == 'None':
+                # (v) None on a not-ended path only after ended := true
+                if b not in ended_true_blocks or b in not_only_ended(body, ended_true_blocks):
+                    if not any(f == F['ended'] and body.dominates(wb, b) for (wb, wi, f, v) in writes):
+                        problems.append('None is returned on a path that does not set the ended flag (the iterator could yield again later)')
+                continue
+            if rv['k'] == 'agg' and rv.get('variant') == 'Some':
+                some_seen = True
+                payload = core.strip_var_ids(c[3][0][1])
+                src, idx = some_source(payload, accessor, kind)
+                if src is None:
+                    problems.append('a Some(..) exit yields %s, not the accessor result%s' % (core.show(payload)[:80], '' if kind == 'recovery' else ' paired with its index'))
+                    continue
+                # the next index must have been advanced past idx before returning
+                adv = [(wb, wi) for (wb, wi, f, v) in writes if f == F['next'] and v[0] == 'bin' and
+                       (v[2] if v[3] == ('const', 1) else v[3]) == idx]
+                if not any(body.dominates(wb, b) for (wb, wi) in adv):
+                    problems.append('the next index is not advanced past the yielded index on the Some path')
+                continue
+            # returning the accessor's Option as it is
+            cc = core.strip_var_ids(c)
+            if cc[0] == 'call' and cc[1] == accessor:
+                some_seen = True
+                idx = cc[2][1]
+                okk = False
+                for sb in sorted(live):
+                    t = body.term(sb)
+                    if t['k'] != 'switch':
+                        continue
+                    d = core.strip_var_ids(body.canon_op(t['discr']))
+                    is_some = (d[0] == 'call' and str(d[1]).endswith('::is_some') and strip_r(d[2][0]) == cc) or (d[0] == 'discr' and strip_r(d[1]) == cc)
+                    if not is_some:
+                        continue
+                    zero = [tgt for v, tgt in t['targets'] if v == 0]
+                    some_edge = (sb, t['otherwise']) if d[0] == 'call' else next(((sb, tgt) for v, tgt in t['targets'] if v == 1), (sb, t['otherwise']))
+                    none_edge = (sb, zero[0]) if zero else None
+                    adv = {wb for (wb, wi, f, v) in writes if f == F['next']}
+                    endw = {wb for (wb, wi, f, v) in writes if f == F['ended']}
+                    r1 = set() if some_edge[1] in adv else body.reachable_from(some_edge[1], stop=frozenset(adv))
+                    r2 = set() if (none_edge is None or none_edge[1] in endw) else body.reachable_from(none_edge[1], stop=frozenset(endw))
+                    rets = set(body.exits())
+                    if not (rets & (r1 - adv)) and not (rets & (r2 - endw)):
+                        okk = True
+                if not okk:
+                    problems.append('the accessor result is returned as it is, but the index is not advanced on Some / the ended flag not set on None')
+                continue
+            problems.append('next() can return %s' % core.show(cc)[:80])
+    if not some_seen:
+        problems.append('no exit yields an item')
+    return problems
+
+
+def strip_r(c):
+    while isinstance(c, tuple) and c and c[0] in ('ref', 'deref'):
+        c = c[1]
+    return c
+
+
+def reach_only(body, sb, te):
+    """blocks reachable from edge sb->te"""
+    return body.reachable_from(te)
+
+
+def not_only_ended(body, ended_blocks):
+    """blocks of ended_blocks that are ALSO reachable without taking the ended-true edge (shared exits)"""
+    shared = set()
+    for b in ended_blocks:
+        if body.term(b)['k'] in ('return', 'goto') and not body.blocks[b]['stmts']:
+            shared.add(b)
+    return shared
+
+
+def some_source(payload, accessor, kind):
+    """payload of Some(..): recovery -> (call accessor(..) as Some).0 ; restored -> (idx, (call accessor(.., idx) as Some).0)"""
+    def acc(x):
+        x = strip_r(x)
+        if isinstance(x, tuple) and x[0] == 'field' and x[2] == '0' and x[1][0] == 'down' and x[1][2] == 'Some':
+            c = strip_r(x[1][1])
+            if c[0] == 'call' and c[1] == accessor:
+                return c
+        return None
+    if kind == 'recovery':
+        c = acc(payload)
+        return (c, c[2][1]) if c else (None, None)
+    if isinstance(payload, tuple) and payload[0] == 'tuple' and len(payload[1]) == 2:
+        c = acc(payload[1][1])
+        if c and strip_r(payload[1][0]) == c[2][1]:
+            return c, c[2][1]
+    return None, None
+
+
+def scan_value(body, idx, fn_, fw, RL):
+    """idx is a scan value: starts at the own next index, advances by exactly 1, bounded by work.original_count()"""
+    idx = strip_r(idx)
+    # for-loop form: payload of Range::next with start == next index
+    if idx[0] == 'field' and idx[2] == '0' and idx[1][0] == 'down' and idx[1][2] == 'Some':
+        c = strip_r(idx[1][1])
+        if c[0] == 'call' and 'Iterator' in str(c[1]) and str(c[1]).endswith('::next'):
+            return range_source(body, c, fn_, fw, RL)
+    if idx[0] == 'var':
+        # named loop variable: for-loop binding or while-loop counter
+        name = idx[1]
+        locs = [i for i, l in enumerate(body.locals) if l.get('name') == name]
+        for l in locs:
+            ds = [d for d in body.defs().get(l, []) if d[0] == 'stmt']
+            vals = [core.strip_var_ids(body.canon_rv(body.blocks[d[1]]['stmts'][d[2]]['rv'], 0, False)) for d in ds]
+            if not vals:
+                continue
+            inits = [v for v in vals if v == fn_]
+            incs = [v for v in vals if v[0] == 'bin' and v[1] == 'Add' and ('const', 1) in (v[2], v[3]) and ('var', name) in (v[2], v[3])]
+            others = [v for v in vals if v not in inits and v not in incs]
+            if inits and not others:
+                # while form: guarded by idx < getter(work)
+                for sb in range(body.n):
+                    t = body.term(sb)
+                    if t['k'] == 'switch':
+                        c = core.strip_var_ids(body.canon_op(t['discr']))
+                        if c[0] == 'bin' and c[1] == 'Lt' and c[2] == ('var', name) and is_count_getter(body, c[3], fw, RL):
+                            return True, ''
+                return False, 'the scan is not bounded by the original count'
+            if len(vals) == 1:
+                v = strip_r(vals[0])
+                if v[0] == 'field' and v[2] == '0' and v[1][0] == 'down':
+                    c = strip_r(v[1][1])
+                    if c[0] == 'call' and str(c[1]).endswith('::next'):
+                        return range_source(body, c, fn_, fw, RL)
+        return False, 'the scan variable does not start at the next index and advance by one'
+    return False, 'not a scan over the indexes from the next index upward'
+
+
+def range_source(body, next_call, fn_, fw, RL):
+    """next_call = ('call', '<Range as Iterator>::next', (iter,)) ; iter = into_iter(Range{start,end})"""
+    it = strip_r(next_call[2][0])
+    # the iterator local is a named/unnamed local defined by into_iter(range)
+    if it[0] == 'var':
+        locs = [i for i, l in enumerate(body.locals) if l.get('name') == it[1]]
+        for l in locs:
+            for d in body.defs().get(l, []):
+                if d[0] == 'call':
+                    t = body.term(d[1])
+                    it = core.strip_var_ids(('call', t['callee'].get('key') or t['callee'].get('path'), tuple(body.canon_op(a) for a in t['args'])))
+                elif d[0] == 'stmt':
+                    st = body.blocks[d[1]]['stmts'][d[2]]
+                    if st['k'] == 'assign':
+                        it = core.strip_var_ids(body.canon_rv(st['rv'], 0, True))
+    if it[0] == 'call' and str(it[1]).endswith('into_iter'):
+        it = strip_r(it[2][0])
+    it = core.strip_var_ids(it)
+    if it[0] == 'adt' and str(it[1]).endswith('ops::Range'):
+        d = dict(it[3])
+        if core.strip_var_ids(d.get('start')) != fn_:
+            return False, 'the scan range starts at %s, not at the next index' % core.show(d.get('start'))
+        if not is_count_getter(body, d.get('end'), fw, RL):
+            return False, 'the scan range does not end at the original count (%s)' % core.show(d.get('end'))
+        return True, ''
+    return False, 'unrecognised iteration source %s' % core.show(it)[:60]
+
+
+def is_count_getter(body, c, fw, RL):
+    c = core.strip_var_ids(strip_r(c))
+    if c[0] != 'call' or not c[2] or strip_r(c[2][0]) not in (fw, ('deref', fw)):
+        return False
+    g = body.facts.fns.get(c[1])
+    if g is None or g.impl_self_adt != roles_mod.DEC_WORK:
+        return False
+    return any(st['k'] == 'assign' and st['lhs']['l'] == 0 and
+               RL.norm(g.body.canon_rv(st['rv']), side='dec') == ('field', ('deref', ('param', 'self')), 'original_count')
+               for bb in g.body.blocks for st in bb['stmts'])
 
 
 def pat_names(p, out=None):
